@@ -306,7 +306,7 @@ func RunW3Builder(plan, sched *simrt.Source, trace bool) *RunOut {
 	cfg := g.GenConfig(trace)
 	nNames := g.Range(1, 6)
 	salSpan := g.Range(0, 2)
-	nOps := 1 + g.Intn(12)
+	nOps := 1 + g.Intn(deep(12, 12))
 	ver := 0
 	model := SetModel{}
 	var ops []*MgmtOp
